@@ -14,10 +14,17 @@
 (* buckets are contiguous and in declaration order.                         *)
 (* SamplingTrace validates the complete enumeration of the real function    *)
 (* (all 2^23 draws per vector) against the same Pick.                       *)
+(*                                                                         *)
+(* Probabilities finer than the draw: a validated probability may be any    *)
+(* f32 in (0, 1], also below 1/R. With weights in units of 1/(R F) the draw *)
+(* r stands for r F units and target i is chosen on the draws r with        *)
+(* Cum(i-1) <= r F < Cum(i): exactly ceil(Cum(i)/F) - ceil(Cum(i-1)/F) of   *)
+(* them (a weight below one draw unit still owns a draw when its bucket     *)
+(* contains a multiple of F, draw 0 in particular).                         *)
 (***************************************************************************)
 EXTENDS Integers, Sequences, FiniteSets
 
-CONSTANTS R, MaxLen, Targets
+CONSTANTS R, MaxLen, Targets, F
 
 RECURSIVE Cum(_, _)
 Cum(v, i) == IF i = 0 THEN 0 ELSE v[i][2] + Cum(v, i - 1)
@@ -26,14 +33,14 @@ Cum(v, i) == IF i = 0 THEN 0 ELSE v[i][2] + Cum(v, i - 1)
 RECURSIVE PickFrom(_, _, _)
 PickFrom(v, r, i) ==
   IF i > Len(v) THEN 0
-  ELSE IF r < Cum(v, i) THEN i ELSE PickFrom(v, r, i + 1)
+  ELSE IF r * F < Cum(v, i) THEN i ELSE PickFrom(v, r, i + 1)
 Pick(v, r) == PickFrom(v, r, 1)
 
 Bucket(v, i) == {r \in 0..(R - 1) : Pick(v, r) = i}
 
 Vectors ==
-  {v \in UNION {[1..n -> Targets \X (1..R)] : n \in 1..MaxLen} :
-     /\ Cum(v, Len(v)) <= R
+  {v \in UNION {[1..n -> Targets \X (1..(R * F))] : n \in 1..MaxLen} :
+     /\ Cum(v, Len(v)) <= R * F
      /\ \A i, j \in 1..Len(v) : i # j => v[i][1] # v[j][1]}
 
 VARIABLE vec
@@ -42,12 +49,19 @@ Next == UNCHANGED vec
 Spec == Init /\ [][Next]_vec
 
 \* the share of the draw space on which target i is chosen is exactly w_i / R
-ExactShare == \A i \in 1..Len(vec) : Cardinality(Bucket(vec, i)) = vec[i][2]
-\* no transition on exactly the remaining 1 - sum
-Residual == Cardinality(Bucket(vec, 0)) = R - Cum(vec, Len(vec))
+CeilDiv(a, b) == (a + b - 1) \div b
+Share(v, i) == CeilDiv(Cum(v, i), F) - CeilDiv(Cum(v, i - 1), F)
+ExactShare == \A i \in 1..Len(vec) : Cardinality(Bucket(vec, i)) = Share(vec, i)
+\* with weights in whole draw units (F = 1, or multiples of F) the share is the weight itself
+WholeShare == \A i \in 1..Len(vec) :
+                (\A j \in 1..i : vec[j][2] % F = 0) => Cardinality(Bucket(vec, i)) * F = vec[i][2]
+\* no transition on exactly the remaining draws
+Residual == Cardinality(Bucket(vec, 0)) = R - CeilDiv(Cum(vec, Len(vec)), F)
 \* buckets are contiguous, in declaration order
-Contiguous == \A i \in 1..Len(vec) : Bucket(vec, i) = Cum(vec, i - 1)..(Cum(vec, i) - 1)
+Contiguous == \A i \in 1..Len(vec) : Bucket(vec, i) = CeilDiv(Cum(vec, i - 1), F)..(CeilDiv(Cum(vec, i), F) - 1)
+\* a vector whose first weight is positive owns draw 0, however small the weight
+DrawZero == Len(vec) >= 1 => Pick(vec, 0) = 1
 \* probability 1 is always taken; no transitions declared, none taken
-Certain == (Len(vec) = 1 /\ vec[1][2] = R) => Bucket(vec, 1) = 0..(R - 1)
+Certain == (Len(vec) = 1 /\ vec[1][2] = R * F) => Bucket(vec, 1) = 0..(R - 1)
 Never == vec = <<>> => Bucket(vec, 0) = 0..(R - 1)
 =============================================================================
